@@ -11,8 +11,10 @@ import (
 )
 
 type family struct {
-	ad    *adapter
-	start func(e *chainEnv, gnum uint64, nval int, root ecommon.Hash) (*chainModel, error)
+	ad *adapter
+	// prepare builds (without installing) a trust root over validator keys vals at about height gnum
+	prepare func(e *chainEnv, gnum uint64, vals []int, root ecommon.Hash) *trustRoot
+	start   func(e *chainEnv, gnum uint64, nval int, root ecommon.Hash) (*chainModel, error)
 	// grow returns a reference-valid child of p carrying root; weak asks for the lowest difficulty available
 	grow func(m *chainModel, p *node, root ecommon.Hash, weak bool) *types.Header
 	// after records the family's per-node state once n (child of p) is known to be valid
@@ -22,6 +24,9 @@ type family struct {
 func parliaFamily(ad *adapter) *family {
 	return &family{
 		ad: ad,
+		prepare: func(e *chainEnv, gnum uint64, vals []int, root ecommon.Hash) *trustRoot {
+			return prepareChain(e, gnum, addrList(vals), addrList(vals), sealerAddr(nSealerKeys-1), root)
+		},
 		start: func(e *chainEnv, gnum uint64, nval int, root ecommon.Hash) (*chainModel, error) {
 			idx := make([]int, nval)
 			for i := range idx {
@@ -60,6 +65,9 @@ func parliaFamily(ad *adapter) *family {
 func cliqueFamily() *family {
 	return &family{
 		ad: mscAdapter,
+		prepare: func(e *chainEnv, gnum uint64, vals []int, root ecommon.Hash) *trustRoot {
+			return prepareClique(e, gnum, addrList(vals), vals[0], root)
+		},
 		start: func(e *chainEnv, gnum uint64, nval int, root ecommon.Hash) (*chainModel, error) {
 			idx := make([]int, nval)
 			for i := range idx {
